@@ -30,6 +30,7 @@
 #include <stdbool.h>
 #include <string.h>
 #include <math.h>
+#include <limits.h>
 #include <zck.h>
 
 #include "zck_private.h"
@@ -377,6 +378,10 @@ bool comp_ioption(zckCtx *zck, zck_ioption option, ssize_t value) {
         }
         if(value < zck->chunk_min_size) {
             set_error(zck, "Maximum chunk size must be >= minimum chunk size");
+            return false;
+        }
+        if(value > INT_MAX) {
+            set_error(zck, "Maximum chunk size must be <= %i", INT_MAX);
             return false;
         }
         zck->chunk_max_size = value;
